@@ -230,6 +230,23 @@ def write_evidence(prop, tier, level, coverage, wall, violations, assumptions):
     return ev
 
 
+def replay_file():
+    """replay mode (bin/check Cxx --replay <path> for the block-driven checks): the corpus is the recorded case only"""
+    return os.environ.get("VERIF_REPLAY_FILE")
+
+
+def replay_blocks():
+    """the block texts a replay file names (the case's block, sub-block, or the pair the checker compared)"""
+    with open(replay_file()) as f:
+        case = json.load(f).get("case", {})
+    out = []
+    for k in ("block", "orig", "a", "base", "sub_block", "sub"):
+        v = case.get(k)
+        if isinstance(v, str) and v.strip() and v.strip() not in out:
+            out.append(v.strip())
+    return out
+
+
 def save_replay(prop, name, obj):
     d = os.path.join(VERIF, "replays")
     os.makedirs(d, exist_ok=True)
